@@ -38,8 +38,8 @@ Proof. exact write_interest. Qed.
 Theorem C01_first_batch : forall (l : loop) (outlen outlen' high low : N), loop_inv l outlen -> l_have_written l = false -> l_have_written (fst (loop_tail l (negb (outlen =? 0)) outlen' high low)) = true.
 Proof. exact first_batch_marks. Qed.
 
-(* AT THE LEVEL OF THE WHOLE SYSTEM, EVERY SCHEDULE (Model/Sys.v: any number of channels and callers, the I/O thread draining any prefix of a mailbox and writing any number of frames at a time, the server reading): what the server has read of channel n, followed by what is still on its way (wire, out-buffer, mailbox), is exactly what caller n issued, in order - no frame of a channel is lost, duplicated or overtaken by another frame of the same channel, however the channels interleave; and what was issued is a prefix of the caller's program *)
-Theorem C01_system_wire_order : forall (answer : N -> N -> N) (bound qcap : N) (progs : N -> list call), 1 <= qcap -> forall (sched : list act) (n : N), let s := yrun answer bound qcap (init_sys progs) sched in projc n (y_seen s) ++ projc n (y_outwire s) ++ projc n (y_outbuf s) ++ yc_mail (y_ch s n) = yc_issued (y_ch s n) /\ yc_issued (y_ch s n) ++ yc_prog (y_ch s n) = progs n.
+(* AT THE LEVEL OF THE WHOLE SYSTEM, EVERY SCHEDULE (Model/Sys.v: any number of channels and callers, the I/O thread draining any prefix of a mailbox and writing any number of frames at a time, the server reading, the server closing OTHER channels at any moment): for a channel the server has not closed, what the server has read of channel n, followed by what is still on its way (wire, out-buffer, mailbox), is exactly what caller n issued, in order - no frame of a channel is lost, duplicated or overtaken by another frame of the same channel, however the channels interleave; and what was issued is a prefix of the caller's program *)
+Theorem C01_system_wire_order : forall (answer : N -> N -> N) (bound qcap : N) (progs : N -> list call), 2 <= qcap -> forall (sched : list act) (n : N), let s := yrun answer bound qcap (init_sys progs) sched in yc_srv_closed (y_ch s n) = false -> projc n (y_seen s) ++ projc n (y_outwire s) ++ projc n (y_outbuf s) ++ yc_mail (y_ch s n) = yc_issued (y_ch s n) /\ yc_issued (y_ch s n) ++ yc_prog (y_ch s n) = progs n.
 Proof. exact sys_wire_order. Qed.
 
 (* non-vacuity: three buffers, a transport that takes 2 bytes, blocks, then the rest *)
@@ -58,7 +58,7 @@ Check C01_mailbox_fifo_below_mark : forall (n : N) (bufs : list bytes) (fuel : n
 Check C01_stream_write : forall (c : core) (oracle : list wr) (bs : bytes) (wr0 : wres) (ob' : outbuf) (rest : list wr), write_to_stream (c_out c) oracle = (bs, wr0, ob', rest) -> wr0 = WOk -> exists c' : core, handle_event c (EvStream (Some oracle) None) = (OOk, c', bs) /\ bs ++ ob (c_out c') = ob (c_out c) /\ ob_sealed (c_out c') = ob_sealed (c_out c) /\ c_slots c' = c_slots c /\ c_qs c' = c_qs c /\ c_phase c' = c_phase c.
 Check C01_write_interest : forall (l : loop) (outlen outlen' high low : N), loop_inv l outlen -> let '(l', _) := loop_tail l (negb (outlen =? 0)) outlen' high low in loop_inv l' outlen'.
 Check C01_first_batch : forall (l : loop) (outlen outlen' high low : N), loop_inv l outlen -> l_have_written l = false -> l_have_written (fst (loop_tail l (negb (outlen =? 0)) outlen' high low)) = true.
-Check C01_system_wire_order : forall (answer : N -> N -> N) (bound qcap : N) (progs : N -> list call), 1 <= qcap -> forall (sched : list act) (n : N), let s := yrun answer bound qcap (init_sys progs) sched in projc n (y_seen s) ++ projc n (y_outwire s) ++ projc n (y_outbuf s) ++ yc_mail (y_ch s n) = yc_issued (y_ch s n) /\ yc_issued (y_ch s n) ++ yc_prog (y_ch s n) = progs n.
+Check C01_system_wire_order : forall (answer : N -> N -> N) (bound qcap : N) (progs : N -> list call), 2 <= qcap -> forall (sched : list act) (n : N), let s := yrun answer bound qcap (init_sys progs) sched in yc_srv_closed (y_ch s n) = false -> projc n (y_seen s) ++ projc n (y_outwire s) ++ projc n (y_outbuf s) ++ yc_mail (y_ch s n) = yc_issued (y_ch s n) /\ yc_issued (y_ch s n) ++ yc_prog (y_ch s n) = progs n.
 
 Print Assumptions C01_write_conserves.
 Print Assumptions C01_trace_conserves.
